@@ -249,6 +249,13 @@ func buildRound(r *ev.Run, rng *rand.Rand, round int) []Spec {
 			add(Spec{Kind: "cycles", Backend: "etcd", IDGen: pick(rng, idGens), N: 300, What: pick(rng, []string{"stores", "regions"}), W: 156})
 		}
 	}
+	// ---- lifecycle: the parent (server) context of the region storage is cancelled before Close / before
+	// Flush / between saves / after Close, with 1..150 regions pending in the batch (W = pending)
+	for _, h := range []string{"cancel-before-close", "cancel-before-flush", "cancel-between-saves", "cancel-after-close"} {
+		for _, pend := range []int{1, 2, 50, 99, 100, 101, 150} {
+			add(Spec{Kind: "lifecycle", Backend: "regionstorage", IDGen: pick(rng, idGens), N: []int{0, 1, 120, 260}[rng.Intn(4)], Hist: h, W: pend})
+		}
+	}
 	// ---- concurrent LoadRegionsOnce while a load is provably in flight (Keys = where the first load is
 	// parked, W = number of concurrent callers, Hist = whether the first load is made to fail)
 	for _, pos := range []string{"first", "middle", "last"} {
@@ -294,6 +301,8 @@ func (x *runner) runCase(sp Spec) {
 		x.runSwitch(sp)
 	case "flushload":
 		x.runFlushLoad(sp)
+	case "lifecycle":
+		x.runLifecycle(sp)
 	default:
 		x.r.Inconclusive("unknown case kind %q", sp.Kind)
 		return
@@ -368,7 +377,7 @@ func main() {
 			r.Inconclusive("no concurrent LoadRegionsOnce case had a load parked in flight")
 		}
 		for _, c := range []string{"interleave_writes_inside_a_running_load", "loads_failed_by_injected_read_fault", "prune_loads_failed_midway_then_retried",
-			"load_prune_cycles_on_a_long_lived_storage", "switch_loads_judged", "flushload_loads_that_overlapped_running_writers"} {
+			"load_prune_cycles_on_a_long_lived_storage", "switch_loads_judged", "flushload_loads_that_overlapped_running_writers", "lifecycle_parent_cancelled_with_pending_batch"} {
 			if r.Counter(c) == 0 {
 				r.Inconclusive("coverage: counter %s is 0", c)
 			}
